@@ -25,6 +25,9 @@ def repo_problems():
     return probs
 
 
+EXPECT = {}     # problem name -> list of "expect" trace lines placed before the problem's own lines
+
+
 def run_problems(drv, problems, rd, timeout_s, jobs=12):
     """runs plan_driver on every problem; returns the concatenated trace lines and the per-problem verdicts"""
     os.makedirs(rd, exist_ok=True)
@@ -36,11 +39,66 @@ def run_problems(drv, problems, rd, timeout_s, jobs=12):
         lines = vlib.read_lines(out) if os.path.exists(out) else []
         if not any('"e":"done"' in ln or '"e":"timeout"' in ln or '"e":"abort"' in ln for ln in lines):
             lines.append(json.dumps({'e': 'abort', 'name': name, 'phase': 'unknown', 'sig': rc}))
-        return name, lines
+        elif 'LeakSanitizer' in txt and 'runtime error:' not in txt and 'ERROR: AddressSanitizer' not in txt:
+            # leaks found at exit: reported by allocation site (the first frame inside the repository)
+            lines.append(json.dumps({'e': 'leak', 'name': name, 'sites': leak_sites(txt)}))
+        elif rc not in (0, 3, 4) or 'Sanitizer' in txt or 'runtime error:' in txt:
+            # a sanitizer report (memory error, undefined behaviour)
+            what = [l for l in txt.splitlines() if 'Sanitizer' in l or 'runtime error' in l][:2]
+            lines.append(json.dumps({'e': 'abort', 'name': name, 'phase': 'sanitizer', 'sig': rc, 'what': ' | '.join(what)[:300]}))
+        return name, EXPECT.get(name, []) + lines
 
     with concurrent.futures.ThreadPoolExecutor(max_workers=jobs) as ex:
         res = list(ex.map(one, enumerate(problems)))
     return res
+
+
+def leak_sites(txt):
+    """the allocation sites of the direct leaks of a LeakSanitizer report: 'file:function' of the first repository frame"""
+    sites = set()
+    for block in txt.split('\n\n'):
+        if not block.lstrip().startswith('Direct leak'):
+            continue
+        for ln in block.splitlines():
+            m = re.search(r' in (.+?) (/repo|%s)/(\S+?):\d+' % re.escape(vlib.REPO), ln)
+            if m:
+                fn = re.sub(r'\(.*', '', m.group(1))
+                fn = re.sub(r'\[abi:\w+\]', '', fn)
+                sites.add('%s:%s' % (m.group(3), fn))
+                break
+    return sorted(sites)
+
+
+def check_leaks(ev, prop, results, cfg):
+    """every leak site must be a listed known finding; returns 1 on a violation"""
+    findings = vlib.load_findings(prop)
+    seen = {}
+    for name, ls in results:
+        for ln in ls:
+            if '"e": "leak"' in ln or '"e":"leak"' in ln:
+                for s_ in json.loads(ln)['sites']:
+                    seen.setdefault(s_, name)
+    ev.cov['leak_sites_observed'] = sorted(seen)
+    for site, name in sorted(seen.items()):
+        sig = 'leak:' + site
+        f = vlib.match_finding(findings, sig)
+        if f:
+            if f['signature'] not in [x['signature'] for x in ev.known]:
+                vlib.known_finding(prop, '%s [%s]' % (f['what'], f['signature']))
+                ev.known.append({'signature': f['signature'], 'what': f['what'], 'example': name})
+            continue
+        if os.environ.get('VERIF_COLLECT'):
+            vlib.log('[collect] %s (%s)' % (sig, name))
+            continue
+        rp = os.path.join(vlib.VERIF, 'replays', '%s-leak-%s.rddl' % (prop, name))
+        os.makedirs(os.path.dirname(rp), exist_ok=True)
+        src = PROBLEM_FILES.get(name)
+        if src:
+            open(rp, 'w').write(''.join(open(p).read() for p in src))
+        ev.violations += 1
+        vlib.violation(prop, rp, 'memory allocated at %s is leaked (problem %s, configuration %s)' % (site, name, cfg))
+        return 1
+    return 0
 
 
 def signature(ev, exec_lines, idx, r=None):
@@ -61,11 +119,12 @@ def validate_results(ev, prop, results, name):
     # executions start at their verdict line (or at an abort/timeout line when there is no verdict)
     marked = []
     for pname, ls in results:
+        ls = [ln for ln in ls if '"e": "leak"' not in ln and '"e":"leak"' not in ln]
         if ls:
             marked.append(ls)
     flat = [ln for ls in marked for ln in ls]
     return vlib.validate_batch(ev, prop, 'PlanTrace', flat, signature, name, timeout=3000, env={'VPROP': prop},
-                               reset_key='"e":"verdict"', describe_fn=describe)
+                               reset_key='"e":"expect"' if EXPECT else '"e":"verdict"', describe_fn=describe)
 
 
 ALL_CONFIGS = ['dbg_exec', 'rel_exec_hadd_ci', 'dbg_exec_hadd', 'dbg_exec_ci', 'dbg_exec_hadd_ci', 'rel_exec', 'rel_exec_hadd', 'rel_exec_ci']
